@@ -12,7 +12,7 @@ import (
 func init() {
 	register(&propDef{
 		ID:       "C13",
-		Explain:  "Decided for manager.Manager (structural necessary conditions): session typestate of handleUpdates on every path with the loop unrolled (Reset exactly once after a failed Recv and then return of that error, with no Connect/update in between; Connect only once, after the first successful Recv and before the first update; updates only after Connect; no return without a failed Recv and a Reset); the six callbacks are invoked only from functions synchronously reachable from retryMonitor (never across a `go`), whose only entry is the `go retryMonitor` in Add; close(finished) is deferred at retryMonitor's entry with no callback after it and the loop exits only on ctx.Done; Remove = refuse unknown, else cancel -> wait finished -> forget, all under the manager lock; Add refuses duplicates before any effect and starts exactly one monitor per success with a fresh unbuffered finished channel; backoff never stops (MaxElapsedTime=0 before the loop) and the timer is re-armed after every monitor attempt; lock discipline of targets/reconnect, and nothing on the monitor goroutine takes the manager lock before finished is closed. Round-3 addition: the monitor chain does not block on a channel completed only by a goroutine that can be waiting for Manager.mu (transitive wait with Remove, which holds the lock while waiting for finished). Round-4 additions: the delay the retry timer is re-armed with is NextBackOff() of the never-ending policy itself (or of backoff.WithContext bound to the monitor's own context); the connection manager's mutex is released on every path (C16.locked, borrowed). Round-5 addition (borrowed from C16): an entry of the connection manager is cached, identified and forgotten under one key and a failed dial removes the entry and publishes the error - otherwise a failed session is handed the first error for ever instead of being retried.",
+		Explain:  "Decided for manager.Manager (structural necessary conditions): session typestate of handleUpdates on every path with the loop unrolled (Reset exactly once after a failed Recv and then return of that error, with no Connect/update in between; Connect only once, after the first successful Recv and before the first update; updates only after Connect; no return without a failed Recv and a Reset); the six callbacks are invoked only from functions synchronously reachable from retryMonitor (never across a `go`), whose only entry is the `go retryMonitor` in Add; close(finished) is deferred at retryMonitor's entry with no callback after it and the loop exits only on ctx.Done; Remove = refuse unknown, else cancel -> wait finished -> forget, all under the manager lock; Add refuses duplicates before any effect and starts exactly one monitor per success with a fresh unbuffered finished channel; backoff never stops (MaxElapsedTime=0 before the loop) and the timer is re-armed after every monitor attempt; lock discipline of targets/reconnect, and nothing on the monitor goroutine takes the manager lock before finished is closed. Round-3 addition: the monitor chain does not block on a channel completed only by a goroutine that can be waiting for Manager.mu (transitive wait with Remove, which holds the lock while waiting for finished). Round-4 additions: the delay the retry timer is re-armed with is NextBackOff() of the never-ending policy itself (or of backoff.WithContext bound to the monitor's own context); the connection manager's mutex is released on every path (C16.locked, borrowed). Round-5 addition (borrowed from C16): an entry of the connection manager is cached, identified and forgotten under one key and a failed dial removes the entry and publishes the error - otherwise a failed session is handed the first error for ever instead of being retried. Round-6 addition: every string handed to a Manager callback is the managed target's own name (target.name, or a parameter every caller fills with it), never a name read out of a message.",
 		NotCover: "backoff timing, races between the receive-timeout watcher and a new sub-context, behaviour of grpc streams and of the connection manager (C16)",
 		Run:      runC13,
 	})
